@@ -1,147 +1,3 @@
-//! `gv c02names --stems w1,w2,…`: the name-test catalogue.
-//!
-//! The back end decides a few things by LOOKING AT A NAME (`f.name == "main"`, `name.contains("TParam")`,
-//! `*name == "ref_get"`, …; the list of those literals is re-read from the Rust source on every run by
-//! `tools/extract.py::c02_name_tests` and passed in as `--stems`).  A test of that kind is right only
-//! if no name a user can write — or a name the compiler derives from one: `inherent#T#T#m`,
-//! `trait_impl#Tr#T#m`, `Pkg::f`, `f__T_int32`, `closure_env_f_0` — passes it by accident.  So: every
-//! kind of user-named item × every stem × every relation a sloppy test could confuse (equal, as a
-//! suffix / prefix with and without a separator, in the middle, other case; a leading underscore is not
-//! an identifier of the language),
-//! one program per (kind, relation, stem), each compiled by the real pipeline; its Go AST is dumped in the
-//! row format of `gv c01` (so `Go.Check` and the printer tie judge the real output).
-use crate::util::{self, Outcome};
-use std::fmt::Write as _;
-
-/// (relation id, the user's name built from the stem `w`)
-pub fn related_names(w: &str) -> Vec<(&'static str, String)> {
-    let mut c = w.chars();
-    let other_case = match c.next() {
-        Some(f) if f.is_ascii_lowercase() => f.to_ascii_uppercase().to_string() + c.as_str(),
-        Some(f) => f.to_ascii_lowercase().to_string() + c.as_str(),
-        None => String::new(),
-    };
-    vec![
-        ("=w", w.to_string()),
-        ("x_w", format!("zq_{}", w)),
-        ("xw", format!("zq{}", w)),
-        ("w_x", format!("{}_zq", w)),
-        ("wx", format!("{}zq", w)),
-        ("x_w_x", format!("zq_{}_zq", w)),
-        ("case", other_case),
-    ]
-}
-
-/// single-package kinds that `c19::IDENT_KINDS` does not have: (kind, program with @A@ / @B@)
-const MORE_KINDS: &[(&str, &str)] = &[
-    ("generic-fn", "fn @A@[T](x: T, k: int32) -> T { x }\nfn @B@[T](x: T, k: int32) -> int32 { k }\nfn main() -> unit { string_println(int32_to_string(@A@(10, 1) * 100 + @B@(\"s\", 2)) + @A@(\"t\", 3)) }\n"),
-    ("closure-host", "fn @A@(k: int32) -> int32 { let g = |x: int32| x + k; g(1) }\nfn @B@(k: int32) -> int32 { let g = |x: int32| x * k; g(2) }\nfn main() -> unit { string_println(int32_to_string(@A@(10) * 100 + @B@(10))) }\n"),
-    ("branch-result-fn", "fn @A@(k: int32) -> int32 { k + 1 }\nfn @B@(k: int32) -> int32 { k * 2 }\nfn main() -> unit { let c = @B@(1) > 1; let r = if c { @A@(10) } else { @B@(10) }; let s = match r { 11 => @A@(r), _ => @B@(r), }; string_println(int32_to_string(r * 100 + s)) }\n"),
-    ("generic-struct", "struct @A@[T] { p: T }\nstruct @B@[T] { q: T }\nfn main() -> unit { let x = @A@ { p: 1 }; let y = @B@ { q: \"s\" }; string_println(int32_to_string(x.p) + y.q) }\n"),
-    ("generic-enum", "enum @A@[T] { Aa, Ab(T) }\nenum @B@[T] { Ba(T) }\nfn main() -> unit { let x = @A@::Ab(3); let y = @B@::Ba(\"t\"); let n = match x { @A@::Aa => 0, @A@::Ab(v) => v, }; let m = match y { @B@::Ba(w) => w, }; string_println(int32_to_string(n) + m) }\n"),
-];
-
-/// items of a library package `Lib`, used from `Main` under the qualified name: (kind, Lib/lib.gom after
-/// the `package` line, body of Main's `main`)
-const PKG_KINDS: &[(&str, &str, &str)] = &[
-    ("pkg-fn", "fn @A@(k: int32) -> int32 { k + 1 }\nfn @B@(k: int32) -> int32 { k * 2 }\n", "string_println(int32_to_string(Lib::@A@(10) * 100 + Lib::@B@(10)))"),
-    ("pkg-generic-fn", "fn @A@[T](x: T, k: int32) -> T { x }\nfn @B@[T](x: T, k: int32) -> int32 { k }\n", "string_println(int32_to_string(Lib::@A@(10, 1) * 100 + Lib::@B@(\"s\", 2)) + Lib::@A@(\"t\", 3))"),
-    ("pkg-struct", "struct @A@ { p: int32 }\nstruct @B@ { q: string }\n", "let x = Lib::@A@ { p: 1 }; let y = Lib::@B@ { q: \"s\" }; string_println(int32_to_string(x.p) + y.q)"),
-    ("pkg-enum", "enum @A@ { Aa, Ab(int32) }\nenum @B@ { Ba(string) }\n", "let x = Lib::@A@::Ab(3); let y = Lib::@B@::Ba(\"t\"); let n = match x { Lib::@A@::Aa => 0, Lib::@A@::Ab(v) => v, }; let m = match y { Lib::@B@::Ba(w) => w, }; string_println(int32_to_string(n) + m)"),
-    ("pkg-inherent-method", "struct Pp { v: int32 }\nimpl Pp { fn @A@(self: Pp) -> int32 { self.v + 1 } fn @B@(self: Pp) -> int32 { self.v * 2 } }\n", "let p = Lib::Pp { v: 10 }; string_println(int32_to_string(p.@A@() + p.@B@() * 100))"),
-    ("pkg-trait-method", "trait Tt { fn @A@(Self) -> int32; fn @B@(Self) -> int32; }\nimpl Tt for int32 { fn @A@(self: int32) -> int32 { self + 1 } fn @B@(self: int32) -> int32 { self * 2 } }\n", "let n: int32 = 10; let d: dyn Lib::Tt = n; string_println(int32_to_string(Lib::Tt::@A@(n) + Lib::Tt::@B@(n) * 100 + Lib::Tt::@A@(d) * 10000))"),
-    ("pkg-trait", "trait @A@ { fn mm(Self) -> int32; }\ntrait @B@ { fn mm(Self) -> int32; }\nimpl @A@ for int32 { fn mm(self: int32) -> int32 { self + 1 } }\nimpl @B@ for int32 { fn mm(self: int32) -> int32 { self * 2 } }\n", "let n: int32 = 10; let d: dyn Lib::@A@ = n; string_println(int32_to_string(Lib::@A@::mm(n) + Lib::@B@::mm(n) * 100 + Lib::@A@::mm(d) * 10000))"),
-];
-
-/// the package itself carries the name: (kind, lib text after the `package` line, body of main) with @A@ the package
-const PKG_NAME_KIND: (&str, &str, &str) = ("pkg-name", "fn ff(k: int32) -> int32 { k + 1 }\nstruct Ss { p: int32 }\n", "let s = @A@::Ss { p: 2 }; string_println(int32_to_string(@A@::ff(10) * 100 + s.p))");
-
-fn emit(id: &str, kind: &str, rel: &str, stem: &str, name: &str, outcome: Outcome, all_src: &str, out: &mut String) {
-    let _ = writeln!(out, "{}\tNAME\t{}\t{}\t{}\t{}", id, kind, rel, stem, name);
-    match outcome {
-        Outcome::Ok(c) => {
-            let _ = writeln!(out, "{}\tEXPECT\tnone\t", id);
-            let _ = writeln!(out, "{}\tSRC\t{}", id, crate::sexp::esc_line(all_src));
-            // the Go AST `Go.Check` judges, and the printer tie (what the user's `go build` reads is the printed text)
-            let _ = writeln!(out, "{}\tSTAGE\tgo\t{}", id, crate::godump::gfile(&c.go).to_text());
-            let text = c.go.to_pretty(&c.goenv, 120);
-            let erased = crate::goparse::erase_file(&c.go);
-            let verdict = match crate::goparse::parse_go(&text) {
-                Ok(parsed) if parsed == erased => "ok".to_string(),
-                Ok(parsed) => format!("diff\t{}", crate::sexp::esc_line(&format!("{:?}", crate::goparse::first_diff(&erased, &parsed, &mut Vec::new())))),
-                Err(e) => format!("parse-error\t{}", crate::sexp::esc_line(&e)),
-            };
-            let _ = writeln!(out, "{}\tPPRINT\t{}", id, verdict);
-        }
-        Outcome::Err(stage, msgs) => {
-            let _ = writeln!(out, "{}\tREJECT\t{}\t{}\t{}", id, stage, crate::sexp::esc_line(&msgs.join(" | ")), crate::sexp::esc_line(all_src));
-        }
-        Outcome::Panic(m) => {
-            let _ = writeln!(out, "{}\tPANIC\t{}\t{}", id, crate::sexp::esc_line(&m), crate::sexp::esc_line(all_src));
-        }
-    }
-}
-
-pub fn main(args: &util::Args) {
-    util::quiet_panics();
-    let _ = std::fs::create_dir_all(&args.out);
-    let stems: Vec<String> = args
-        .rest
-        .iter()
-        .position(|x| x == "--stems")
-        .and_then(|i| args.rest.get(i + 1))
-        .map(|s| s.split(',').filter(|x| !x.is_empty()).map(|x| x.to_string()).collect())
-        .unwrap_or_default();
-    let only_kind: Option<&String> = args.rest.iter().position(|x| x == "--kind").and_then(|i| args.rest.get(i + 1));
-    let mut out = String::new();
-    let base = util::scratch_dir("c02names");
-    let single = base.join("single");
-    let mut n = 0usize;
-    let mut kinds: Vec<(String, String)> = crate::c19::IDENT_KINDS.iter().map(|(k, t, _)| (k.to_string(), t.to_string())).collect();
-    kinds.extend(MORE_KINDS.iter().map(|(k, t)| (k.to_string(), t.to_string())));
-    // the controls: every template with two ordinary names must compile (a template that does not is a broken tie)
-    let mut cases: Vec<(String, String, String)> = vec![("control".to_string(), "-".to_string(), "zqa".to_string())];
-    for w in &stems {
-        for (rel, name) in related_names(w) {
-            cases.push((rel.to_string(), w.clone(), name));
-        }
-    }
-    for (rel, stem, name) in &cases {
-        for (kind, tpl) in &kinds {
-            if only_kind.is_some_and(|o| o != kind) {
-                continue;
-            }
-            let src = tpl.replace("@A@", name).replace("@B@", "zqb");
-            let id = format!("name:{}:{}:{}", kind, rel, stem);
-            emit(&id, kind, rel, stem, name, util::compile_text(&single, &src), &src, &mut out);
-            n += 1;
-        }
-        let mut pk: Vec<(&str, String, String, String)> = PKG_KINDS.iter().map(|(k, l, m)| (*k, "Lib".to_string(), l.to_string(), m.to_string())).collect();
-        // a package called like the name (package names start with an upper-case letter in the corpus; both are tried)
-        pk.push((PKG_NAME_KIND.0, name.clone(), PKG_NAME_KIND.1.to_string(), PKG_NAME_KIND.2.to_string()));
-        for (kind, pkg, lib, body) in pk {
-            if only_kind.is_some_and(|o| o != kind) {
-                continue;
-            }
-            let id = format!("name:{}:{}:{}", kind, rel, stem);
-            let root = base.join(format!("p{}", n));
-            let _ = std::fs::remove_dir_all(&root);
-            let lib_src = format!("package {}\n\n{}", pkg, lib).replace("@A@", name).replace("@B@", "zqb");
-            let main_src = format!("package Main\nimport {}\n\nfn main() {{\n    {};\n    ()\n}}\n", pkg, body).replace("@A@", name).replace("@B@", "zqb");
-            let lib_rel = format!("{}/lib.gom", pkg);
-            let _ = std::fs::create_dir_all(root.join(&pkg));
-            let _ = std::fs::write(root.join(&lib_rel), &lib_src);
-            let _ = std::fs::write(root.join("main.gom"), &main_src);
-            let all = format!("// {}\n{}\n// main.gom\n{}", lib_rel, lib_src, main_src);
-            emit(&id, kind, rel, stem, name, util::compile_path(&root.join("main.gom"), &main_src), &all, &mut out);
-            let _ = std::fs::remove_dir_all(&root);
-            n += 1;
-        }
-    }
-    let _ = std::fs::remove_dir_all(&base);
-    let _ = writeln!(out, "#FEATS\tname-test catalogue: {} stems x {} relations x {} kinds = {} programs", stems.len(), related_names("w").len(), kinds.len() + PKG_KINDS.len() + 1, n);
-    std::fs::write(args.out.join("c02names.cases.tsv"), out).unwrap();
-    println!("c02names: {} programs, stems {:?}", n, stems);
 //! Catalogue "a local binder spelled like a package-level name": every binder kind x every use
 //! position x every kind of package-level name (enum variant with / without payload, upper- and
 //! lower-case, struct, enum type, function, builtin) x where that name is declared (same file /
